@@ -6,9 +6,12 @@ CONSTANTS
   MaxTape = 60
   Chunks = {"c1", "c2", "c3"}
   AttrVals = {1, 2}
+  Handles = {}
+  HandleFlags = {}
   MaxContent = 2
   RS = 4
   Depth = 12
+  HBias = 0
   OkBias = 85
   Shape <- MCShape
   ChunkBlocks <- MCChunkBlocks
